@@ -185,8 +185,31 @@ def affixed_name(draw, kind):
     valid = {'path': S.object_path, 'member': S.member_name(), 'iface': S.interface_name(),
              'error': S.error_name(), 'bus': S.bus_name}[kind]
     base = draw(valid)
-    ch = draw(st.sampled_from(['\n', '\n', '\r', '\r\n', '\t', ' ', '\x00', '\x0b', '\u2028', '.', '/', ':', '-']))
+    ch = draw(st.sampled_from(['\n', '\n', '\r', '\r\n', '\t', ' ', '\x00', '\x0b', '\u2028', '.', '/', ':', '-'] + LOOKALIKES[:6]))
     return base + ch if draw(st.integers(0, 3)) else ch + base
+
+
+LOOKALIKES = ['\u017f', '\u212a', '\u0130', '\u0131',      # case-fold onto s, k, i, i (re.IGNORECASE lets them through)
+              '\uff21', '\uff41', '\uff3f',                 # fullwidth A, a, low line
+              '\u00b2', '\u0663', '\uff11',                 # superscript two, Arabic-Indic three, fullwidth one (str.isdigit())
+              '\u2024', '\uff0e', '\u2215', '\uff0f', '\uff1a',  # look-alikes of . / :
+              '\u00ad', '\u200b', '\ufeff', '\u0301']       # soft hyphen, zero-width space, BOM, combining accent
+
+
+def enum_lookalikes(tier):
+    """Valid names of every kind with one character replaced by, or extended with, a non-ASCII character that some
+    Unicode-aware operation (case folding, isdigit, isalnum, NFKC) would take for an ASCII one."""
+    bases = {'path': ['/a/b1', '/org/x_y'], 'member': ['Ping', 'm_2'], 'iface': ['a.b', 'org.verif.If_1'],
+             'error': ['a.b.E', 'org.verif.Error.X9'], 'bus': ['c.d-e', ':1.42', 'org.verif.S0']}
+    seen = set()
+    for kind, names in bases.items():
+        for base in names:
+            for ch in LOOKALIKES:
+                for pos in (0, 1, len(base) // 2, len(base) - 1, len(base)):
+                    for t in (base[:pos] + ch + base[pos:], base[:pos] + ch + base[pos + 1:]):
+                        if t not in seen:
+                            seen.add(t)
+                            yield {'s': t}
 
 
 # --------------------------------------------------------------------------
@@ -221,7 +244,7 @@ def ctor_case(draw):
         v = draw(affixed_name(kind))
     else:
         v = draw(boundary_name())['s']
-    return {'cls': cls, 'arg': arg, 'value': v}
+    return {'cls': cls, 'arg': arg, 'value': v, 'others': draw(st.integers(0, 3))}
 
 
 def run_ctor(case):
@@ -229,20 +252,26 @@ def run_ctor(case):
     from txdbus.error import MarshallingError
     cls, arg, v = case['cls'], case['arg'], case['value']
     kw = {arg: v}
+    # the arguments NOT under test are present with valid values, or left out where they are optional ('others'):
+    # a check on one argument must not depend on which other arguments were given
+    others = case.get('others', 0)
     try:
         if cls == 'MethodCall':
-            args = dict(path='/p', member='M', interface='a.b', destination='c.d')
+            args = dict(path='/p', member='M', interface='a.b' if others % 2 == 0 else None,
+                        destination='c.d' if others < 2 else None)
             args.update(kw)
             m = MSG.MethodCallMessage(args['path'], args['member'], interface=args['interface'],
                                       destination=args['destination'])
         elif cls == 'MethodReturn':
-            m = MSG.MethodReturnMessage(5, destination=v)
+            extra = {} if others % 2 == 0 else dict(signature='s', body=['x'])
+            m = MSG.MethodReturnMessage(5, destination=v, **extra)
         elif cls == 'Error':
-            args = dict(error_name='a.b.Err', destination='c.d')
+            args = dict(error_name='a.b.Err', destination='c.d' if others < 2 else None)
             args.update(kw)
-            m = MSG.ErrorMessage(args['error_name'], 5, destination=args['destination'])
+            extra = {} if others % 2 == 0 else dict(sender=':1.7')      # only this class takes a sender
+            m = MSG.ErrorMessage(args['error_name'], 5, destination=args['destination'], **extra)
         else:
-            args = dict(path='/p', member='M', interface='a.b', destination='c.d')
+            args = dict(path='/p', member='M', interface='a.b', destination='c.d' if others < 2 else None)
             args.update(kw)
             m = MSG.SignalMessage(args['path'], args['member'], args['interface'],
                                   destination=args['destination'])
@@ -277,6 +306,9 @@ SUBCHECKS = [
     Subcheck('strings', run_string, classify_string, enumerate=enum_strings,
              shards={'quick': 4, 'thorough': 16},
              exhaustive_note='every string of length 0..5 (quick) / 0..6 (thorough) over a 10-class alphabet x 5 validators'),
+    Subcheck('lookalikes', run_string, classify_string, enumerate=enum_lookalikes, shards={'quick': 2, 'thorough': 2},
+             exhaustive_note='11 valid names x 19 non-ASCII look-alike characters (case-folding, digit-like, fullwidth, '
+                             'separator look-alikes, invisible) inserted or substituted at 5 positions x 5 validators'),
     Subcheck('long', run_string, classify_string, strategy=lambda tier: boundary_name(),
              n={'quick': 500, 'thorough': 4000}),
     Subcheck('ctor', run_ctor, classify_ctor, strategy=lambda tier: ctor_case(),
